@@ -328,6 +328,10 @@ def worker(job, r):
     c = sess.cmd
     c('ctx 0')
     c('set_ext 0 ksi+http://ext.example/x anon %s' % key.decode())
+    if seed % 2:
+        # the aggregator's MAC algorithm is configured differently from the extender's (SHA-512 / default): extender replies are judged by the extender's
+        c('opt 0 aggr_hmac 5')
+        r.count('sessions_with_other_aggregator_mac_algorithm')
     r.count('sessions_with_long_password' if len(key) > 64 else 'sessions_with_short_password')
     kinds = ['nocal', 'cal', 'pub', 'auth:ok', 'auth:exact', 'auth:before', 'auth:after', 'auth:far', 'auth:farafter', 'auth:leapok', 'auth:leapbefore', 'auth:leapafter', 'auth:leapexact', 'auth:absent', 'auth:badsig', 'auth:otherdata', 'auth:ecok', 'auth:ecjunk', 'auth:ecother']
     for i in range(n):
